@@ -33,7 +33,21 @@ Inductive lstn :=
 | LsIf (c : bexp) (a b : lstn)
 | LsOther (src : string).
 
-Record serve := mkServe { sv_cond : bexp; sv_listener : lstn; sv_orca : owrap; sv_h1 : string; sv_h2 : string }.
+(* a handler constructor: inmem.New, handlers.NilHandler, memcached.Chunked(l1sock), ... *)
+Inductive hnd :=
+| HUnset
+| HCall (ctor : string) (args : list string)
+| HIf (c : bexp) (a b : hnd)
+| HOther (src : string).
+
+(* the protocol list handed to ListenAndServe, in order (package names) *)
+Inductive protos :=
+| PsList (l : list string)
+| PsIf (c : bexp) (a b : protos)
+| PsOther (src : string).
+
+Record serve := mkServe { sv_cond : bexp; sv_listener : lstn; sv_protos : protos; sv_server : string;
+                          sv_orca : owrap; sv_h1 : hnd; sv_h2 : hnd }.
 
 (* ---- evaluation under a valuation of the command-line flags ---- *)
 Definition flags := string -> bool.
@@ -85,6 +99,29 @@ Fixpoint lseval (f : flags) (l : lstn) : option lstn :=
   | LsIf c a b => match beval f c with Some true => lseval f a | Some false => lseval f b | None => None end
   | LsUnset | LsOther _ => None
   end.
+
+Fixpoint heval (f : flags) (h : hnd) : option (string * list string) :=
+  match h with
+  | HCall c a => Some (c, a)
+  | HIf c a b => match beval f c with Some true => heval f a | Some false => heval f b | None => None end
+  | HUnset | HOther _ => None
+  end.
+
+Fixpoint pseval (f : flags) (p : protos) : option (list string) :=
+  match p with
+  | PsList l => Some l
+  | PsIf c a b => match beval f c with Some true => pseval f a | Some false => pseval f b | None => None end
+  | PsOther _ => None
+  end.
+
+(* protocols, server constructor and the two handler constructors of every started server *)
+Definition started_with (f : flags) (svs : list serve)
+  : list (option (list string) * string * option (string * list string) * option (string * list string)) :=
+  flat_map (fun s => match beval f (sv_cond s) with
+                     | Some true => [(pseval f (sv_protos s), sv_server s, heval f (sv_h1 s), heval f (sv_h2 s))]
+                     | Some false => []
+                     | None => [(None, sv_server s, None, None)]
+                     end) svs.
 
 (* the servers started under a valuation: listener and resolved orchestrator *)
 Definition started (f : flags) (svs : list serve) : list (option lstn * option rorca) :=
